@@ -289,6 +289,36 @@ func c09Scenario(r *Run, si int, hookCount *int64) error {
 	s.Env.Net.AlwaysPeers = true
 	defer func() { s.Env.Net.AlwaysPeers = false }()
 	defer s.Close()
+	// every second scenario (both parities of si, which select other variants below) runs on
+	// instances that keep everything in memory - the observed instance X and the peer Y: the
+	// Directory of NewOrbitDBOptions is ":memory:" or nil (the default), so that every database's
+	// cache is an in-memory datastore of the instance's cache manager, told apart from the others
+	// by the manager's key alone
+	mem := si%4 == 1 || si%4 == 2
+	if mem {
+		for i := range s.Reps {
+			old := s.Reps[i]
+			_ = old.Orbit.Close()
+			nilDir := r.Rng.Intn(2) == 0
+			rep, err := s.Env.NewReplicaOpts(old.Idx, s.Label, c14MemDir, sim.PeerIDFor(s.Label, old.Idx), func(o *orbitdb.NewOrbitDBOptions) {
+				if nilDir {
+					o.Directory = nil
+				}
+			})
+			if err != nil {
+				return fmt.Errorf("instance in memory: %w", err)
+			}
+			s.Reps[i] = rep
+			if nilDir {
+				r.Count("instance:memory(nil directory)")
+			} else {
+				r.Count("instance:memory(\":memory:\")")
+			}
+		}
+		r.Count("scenario:in-memory")
+	} else {
+		r.Count("scenario:on-disk")
+	}
 	X, Y := s.Reps[0], s.Reps[1]
 	k := 2 + r.Rng.Intn(3)
 	w := &c09World{r: r, s: s, k: k, entDB: map[string]int{}, entTime: map[string]int{}, hooks: hookCount, sharedX: &orbitdb.CreateDBOptions{}}
@@ -446,7 +476,7 @@ func c09Scenario(r *Run, si int, hookCount *int64) error {
 		}
 		before := w.observeAll()
 		opCoq := ""
-		descr := map[string]interface{}{"kind": kind, "scen": si, "step": st, "k": k, "target": j, "types": w.types, "writers": w.wmodes}
+		descr := map[string]interface{}{"kind": kind, "scen": si, "step": st, "k": k, "target": j, "types": w.types, "writers": w.wmodes, "memory": mem, "addresses": w.addrs}
 		switch kind {
 		case "write":
 			if err := writeOp(r, s, w.x[j], st); err != nil {
